@@ -127,3 +127,38 @@ Definition in_domain (s : sys) (p : V3) : Prop :=
 
 (* Cartesian points off the z axis (where the azimuth is defined) *)
 Definition off_axis (p : V3) : Prop := let '(x, y, _) := p in (x, y) <> (0, 0).
+
+(* ---- frames related by a rotation (coordinates_rotate) ---------------------------------------------------------- *)
+
+Inductive axis : Type := AX | AY | AZ.
+
+(* components in the PARENT frame of the vector whose components in the frame rotated by the angle al about the
+   parent's axis ax are p (sympy: parent.orient_new_axis(name, al, axis)) *)
+Definition to_parent (ax : axis) (al : R) (p : V3) : V3 :=
+  let '(x, y, z) := p in
+  match ax with
+  | AZ => (x * cos al - y * sin al, x * sin al + y * cos al, z)
+  | AX => (x, y * cos al - z * sin al, y * sin al + z * cos al)
+  | AY => (x * cos al + z * sin al, y, - x * sin al + z * cos al)
+  end.
+
+Definition from_parent (ax : axis) (al : R) (p : V3) : V3 := to_parent ax (- al) p.
+
+(* a curvilinear triple given in the child of the rotated frame, re-expressed in the parent Cartesian frame *)
+Definition curv_rotated_to_parent (s : sys) (ax : axis) (al : R) (p : V3) : V3 := to_parent ax al (to_cart s p).
+
+(* ---- points/*.py: a point is a list of coordinates, absent ones read as 0, setters pad with zeros ----------------- *)
+
+Definition pget {A : Type} (zero : A) (l : list A) (i : nat) : A := nth i l zero.
+
+Fixpoint pset {A : Type} (zero : A) (l : list A) (i : nat) (v : A) : list A :=
+  match i, l with
+  | O, [] => [v]
+  | O, _ :: t => v :: t
+  | S i', [] => zero :: pset zero [] i' v
+  | S i', h :: t => h :: pset zero t i' v
+  end.
+
+(* a sequence of setter calls *)
+Definition pset_all {A : Type} (zero : A) (l : list A) (ops : list (nat * A)) : list A :=
+  fold_left (fun acc op => pset zero acc (fst op) (snd op)) ops l.
